@@ -15,7 +15,7 @@ ID = "C01"
 LEVEL = "model_checking"
 RULE = (
     "Exhaustive product: point set in all k-subsets of the 3x3 lattice (k = 3..5; thorough 2..6 plus k <= 5 subsets of the 4x3 lattice) x "
-    "frame (scale 1e-2, 1, 1e3, 1e6; offset 0 or 1e3 x extent; jitter none / general position; array shape 1-D / 2-D) x every "
+    "frame (scale 1e-2, 1, 1e3, 1e6; offset 0 or 1e3 x extent; jitter none / general position; array shape 1-D / 2-D C / 2-D Fortran-ordered; first fit or refit of an instance that saw a smaller point set before) x every "
     "exact-interpolator configuration (Spline with and without mindist, VectorSpline2D over Poisson and mindist values, KNeighbors(1), "
     "Linear/Cubic with both rescale settings, Chains and Vectors assembled from them) x data = every unit basis vector (complete for "
     "gridders linear in the data) + a ramp + an alternating large-dynamic-range vector; a conditioning ladder (5-point cross plus a sixth "
@@ -30,8 +30,20 @@ ASSUMPTIONS = ["tolerance 256 * cond * eps * max|data| with cond the condition n
 L33 = [(x, y) for y in range(3) for x in range(3)]
 L43 = [(x, y) for y in range(3) for x in range(4)]
 JIT = {(x, y): (((x * 7 + y * 3) % 5 - 2) / 37.0, ((x * 5 + y * 11) % 7 - 3) / 53.0) for x in range(6) for y in range(6)}
-FRAMES = [dict(sc=s, off=o, jit=j, shape=sh) for s in (1.0, 1e-2, 1e3, 1e6) for o in (0.0, 1e3) for j in (False, True) for sh in ("1d", "2d")]
-FRAMES.sort(key=lambda f: (f["sc"] != 1.0, f["off"] != 0.0, f["jit"], f["shape"] != "1d"))
+FRAMES = [dict(sc=s, off=o, jit=j, shape=sh, prefit=pf) for s in (1.0, 1e-2, 1e3, 1e6) for o in (0.0, 1e3) for j in (False, True)
+          for sh in ("1d", "2d", "2dF") for pf in (False, True)]
+FRAMES.sort(key=lambda f: (f["sc"] != 1.0, f["off"] != 0.0, f["jit"], f["prefit"], f["shape"] != "1d"))
+# frames every quick run includes besides the base frame: Fortran-ordered 2-D input, and an estimator instance that was
+# fitted to a different (smaller) point set before (added after seeds C01-1 / C01-2 slipped past the first version)
+ALWAYS = [dict(sc=1.0, off=0.0, jit=False, shape="2dF", prefit=False), dict(sc=1.0, off=0.0, jit=True, shape="1d", prefit=True)]
+
+
+def _frames(tier, seed):
+    fr = pick_frames(FRAMES, tier, seed, nquick=2)
+    for f in ALWAYS:
+        if f not in fr:
+            fr.insert(1, f)
+    return fr
 
 CONFIGS = (
     [["Spline", {}], ["Spline", {"mindist_rel": 1e-3}]]
@@ -47,7 +59,7 @@ CONFIGS = (
 
 
 def bounds(tier, seed):
-    return dict(frames=pick_frames(FRAMES, tier, seed, nquick=2), n_configs=len(CONFIGS),
+    return dict(frames=_frames(tier, seed), n_configs=len(CONFIGS),
                 subsets="3x3 k=3..5" if tier == "quick" else "3x3 k=2..6, 4x3 k<=5", ladder_deltas=[10.0 ** -k for k in range(1, 7)],
                 trend_degrees=[0, 4])
 
@@ -67,7 +79,7 @@ def _collinear(pts):
 
 
 def cases(tier, seed):
-    frames = pick_frames(FRAMES, tier, seed, nquick=2)
+    frames = _frames(tier, seed)
     sets = [list(s) for k in ((3, 4, 5) if tier == "quick" else (2, 3, 4, 5, 6)) for s in itertools.combinations(range(9), k)]
     for fr in frames:
         for ci, spec in enumerate(CONFIGS):
@@ -143,7 +155,7 @@ def _reference_cond(spec, e, n, ext):
     return 1.0
 
 
-def _exactness(rec, spec, e, n, ext, shape, what):
+def _exactness(rec, spec, e, n, ext, shape, what, prefit=False):
     npts = e.size
     nc = ncomp(spec)
     cond = _reference_cond(spec, e, n, ext)
@@ -154,7 +166,12 @@ def _exactness(rec, spec, e, n, ext, shape, what):
         return
     rec.cls("cond 1e%d" % int(math.floor(math.log10(max(cond, 1.0)))))
     lsq = cond > 1.0
-    rs = (lambda a: a) if shape == "1d" else (lambda a: a.reshape(1, -1) if a.size % 2 else a.reshape(2, -1))
+    if shape == "1d":
+        rs = lambda a: a
+    elif shape == "2d":
+        rs = lambda a: a.reshape(1, -1) if a.size % 2 else a.reshape(2, -1)
+    else:  # same element sequence in C reading order, Fortran memory layout (a transposed view for odd sizes)
+        rs = lambda a: np.ascontiguousarray(a.reshape(-1, 1)).T if a.size % 2 else np.asfortranarray(a.reshape(2, -1))
     coords = (rs(e), rs(n))
     for vi, v in enumerate(_data_vectors(npts)):
         if nc == 1:
@@ -164,6 +181,16 @@ def _exactness(rec, spec, e, n, ext, shape, what):
             comps = [v, v[::-1] * 3.0 + 1.0][:nc]
             data = tuple(rs(c) for c in comps)
         est = build(spec, ext)
+        # (VectorSpline2D documents that it keeps the force locations of its first fit, so a refitted instance is not an
+        # "interpolator with forces at the data points" any more: outside this property, decided by C20)
+        if prefit and npts > 2 and "VectorSpline2D" not in str(spec):
+            # the same instance has seen another, smaller point set before: a refit must behave like a first fit
+            k0 = npts - 1
+            pc = (e[:k0] * 0.5 + 0.25 * ext, n[:k0] * 0.5 - 0.125 * ext)
+            pd_ = np.arange(1.0, k0 + 1) if nc == 1 else tuple(np.arange(1.0, k0 + 1) * (c + 1) for c in range(nc))
+            pre = call(rec, est.fit, pc, pd_)
+            if raised(pre):
+                est = build(spec, ext)
         fit = call(rec, est.fit, coords, data)
         if raised(fit):
             rec.check(False, "%s: fit raised %r" % (what, fit))
@@ -174,6 +201,16 @@ def _exactness(rec, spec, e, n, ext, shape, what):
             return
         preds = list(pred) if isinstance(pred, tuple) else [pred]
         rec.check(len(preds) == nc, "%s: %d prediction components, expected %d" % (what, len(preds), nc))
+        if shape != "1d":
+            # the same data points handed over as plain 1-D arrays must give the same values (a layout-dependent but
+            # self-consistent pairing of coordinates and data would otherwise go unnoticed)
+            pred1 = call(rec, est.predict, (e.copy(), n.copy()))
+            if raised(pred1):
+                rec.check(False, "%s: predict on 1-D copies of the data points raised %r" % (what, pred1))
+                return
+            preds1 = list(pred1) if isinstance(pred1, tuple) else [pred1]
+        else:
+            preds1 = []
         scale = max(float(np.max(np.abs(c))) for c in comps)
         tol = R.tol(cond, scale) if lsq else 1e-12 * scale
         for c, p in zip(comps, preds):
@@ -183,6 +220,9 @@ def _exactness(rec, spec, e, n, ext, shape, what):
             rec.ratio(err / tol)
             rec.check(err <= tol, "%s data #%d: max |predict(data points) - data| = %.3g exceeds %.3g (cond %.3g, scale %.3g)"
                       % (what, vi, err, tol, cond, scale))
+        for c, p in zip(comps, preds1):
+            err = float(np.max(np.abs(np.asarray(p).ravel() - c)))
+            rec.check(err <= tol, "%s data #%d: predicting at the data points given as 1-D arrays misses the data by %.3g (bound %.3g)" % (what, vi, err, tol))
 
 
 def run(case, rec):
@@ -194,7 +234,7 @@ def run(case, rec):
             rec.trivial = True
             rec.skip("collinear / fewer than 3 points: outside the space of Linear and Cubic")
             return
-        _exactness(rec, spec, e, n, ext, case["frame"]["shape"], "%s on %s" % (spec, pts))
+        _exactness(rec, spec, e, n, ext, case["frame"]["shape"], "%s on %s" % (spec, pts), case["frame"].get("prefit", False))
         return
     if kind == "ladder":
         spec = CONFIGS[case["cfg"]]
